@@ -333,7 +333,10 @@ fn perfect_powers(ctx: &mut Ctx) {
                 }
                 ctx.rec.case_marker(case, &format!("perfect power family ntotal={} ndim={}", n, d));
                 for idx in [0usize, n / 2, n - 1] {
-                    for rad in [0.0f32, 1.0, 1.5] {
+                    // (radii that ARE lattice distances - 1, 2, 3, sqrt 2.. as f32 - only on the smaller cubes: the
+                    // points exactly on the sphere are where a distance computed one ulp off shows)
+                    let radii: &[f32] = if n <= 20_000 { &[0.0, 1.0, 1.5, 2.0, 3.0, 1.4142135, 2.4494898, 3.1622777] } else { &[0.0, 1.0, 1.5] };
+                    for rad in radii.iter().copied() {
                         let got = guarded(|| Topology::find_neighbors(&n, &d, &idx, &rad));
                         ctx.rec.count("neighbourhoods", 1);
                         ctx.rec.count("perfect_power_cases", 1);
